@@ -485,6 +485,19 @@ def run(ctx):
     for BC in ("Periodic", "ZERO", "neumann", "foo"):
         deconv1_case(5, BC, P=int_psf(3, False))
 
+    # scipy's convolve1d itself against `conv1` (the operator the theorems conv1_flip_adjoint / deconv1d_matrix speak about)
+    for mode in ("constant", "wrap", "nearest", "reflect", "mirror"):
+        for s_ in (list(range(1, 7)) if not thorough else list(range(1, 12))):
+            n = rng.choice([1, 2, 3, 5, 6]) if not thorough else rng.choice(range(1, 10))
+            P = int_psf(s_, False)
+            def h_c1(out, mode=mode, n=n, P=P):
+                desc = {"op": "convolve1d", "mode": mode, "n": n, "P": P.tolist()}
+                ctx.case("conv1", desc)
+                C = cols(lambda x: convolve1d(x, P, mode=mode), n)
+                if not same(parse_L(out), C, True):
+                    ctx.disagree(f"tie:convolve1d:{mode}", desc, out[:300], C.tolist(), "scipy.ndimage.convolve1d differs from the index formula of the model")
+            jobs.append((f"conv1 {mode} {n} {qv(P)}", h_c1))
+
     # legacy circulant matrices: leaf matrix through the generic LinearModel path
     for PSF in ("gauss", "sinc", "vonMises", nrs.randint(1, 5, size=6).astype(float)):
         with quiet():
